@@ -29,6 +29,7 @@ def gen_cases(rng, tier, ctx):
         cs.append({'line': gen.encode_line(d, wl, m, False, False, None), 'cat': 'random',
                    'cfg': dict(data=d, wl=wl, modes=m, macros=False, fnc1=False, eci=None)})
     cs += gen.boundary_cases(rng, tier, per_cap=2 if tier == 'quick' else 6)
+    cs += [c for c in gen.constant_cases(rng, tier) if len(c['cfg']['data']) <= 260]
     for d, wl in ((list(b"ABCDEFGH12345678"), [3]), (list(b"ABCDEFGH12345678"), gen.DEFAULT), ([200] * 1556, gen.DEFAULT),
                   (list(b"12345678"), [0, 1])):
         cs.append({'line': gen.encode_line(d, wl, 63, False, False, None), 'cat': 'former-finding',
